@@ -117,7 +117,9 @@ def make_replay(which):
 def harnesses(tier, seed):
     hs = _harnesses(tier, seed)
     for h in hs:
-        h.replay = make_replay('Check' if h.name.endswith('Violation.Check') else h.name.split('.')[-1])
+        key = ('Check' if h.name.endswith('Violation.Check') else 'Indicator' if 'Indicator' in h.name else 'Functional' if 'Functional' in h.name else
+               'Algebraic' if ('Algebraic' in h.name or 'AlgConRhs' in h.name) else h.name.split('.')[-1])
+        h.replay = make_replay(key)
     return hs
 
 
@@ -188,7 +190,125 @@ def _harnesses(tier, seed):
                    loops={0: '__CPROVER_assigns(i, result) __CPROVER_loop_invariant(i >= 1 && i <= g_nargs && result >= 0.0 && result <= (double)(g_nargs - i)) __CPROVER_decreases(i)'},
                    nloops=1, pre='__CPROVER_assume(g_nargs >= 1);'))
     hs.append(h_check())
+    hs += [h_indicator(), h_functional_violation(), h_algebraic_violation()]
+    for k in (-2, -1, 0, 1, 2):
+        hs += h_algconrhs(k)
     return hs
+
+
+GEN = 'include/mp/flat/constr_general.h'
+ALG = 'include/mp/flat/constr_algebraic.h'
+CTXH = 'include/mp/flat/context.h'
+VIOL = '''
+#include "mp_shim.h"
+#include <math.h>
+int vp_one;
+#define assert(x) __CPROVER_assert(x, "assert(" #x ") of the source holds")
+typedef struct { double viol_, valX_; } Violation;
+#define VEQ(v, a, b) ((v).viol_ == (a) && (v).valX_ == (b))
+static double max(double a, double b) { return a < b ? b : a; }
+'''
+RET = [(r'return\s*\{', 'return (Violation){', -1)]
+
+
+def h_indicator():
+    """IndicatorConstraint::ComputeViolation: the implied constraint is checked exactly when the indicator variable's nearest integer is the
+    indicator value (a binary within the integrality tolerance of bv counts as bv); otherwise no violation"""
+    parts = [VIOL, '''
+int b_, bv_; double g_xb; size_t g_nx; Violation g_sub;
+static double vp_x(int i) { __CPROVER_assert(i == b_, "only the indicator variable is read here"); return g_xb; }
+static Violation con_ComputeViolation(void) { return g_sub; }      /* the implied constraint's own violation (C07.Algebraic.*) */
+''',
+             Fn(GEN, r'Violation ComputeViolation\(const VarInfo& x\) const \{\s*assert\(b_<\(int\)x\.size\(\)\);', 'Violation Indicator_ComputeViolation(void)',
+                contract='__CPROVER_requires(g_xb == g_xb && (bv_ == 0 || bv_ == 1) && b_ >= 0 && (size_t)b_ < g_nx && g_nx <= 1000000) '
+                         '__CPROVER_ensures(((bv_ == 1 && g_xb >= 0.5 && g_xb < 1.5) || (bv_ == 0 && g_xb > -0.5 && g_xb < 0.5)) '
+                         '? VEQ(__CPROVER_return_value, g_sub.viol_, g_sub.valX_) : VEQ(__CPROVER_return_value, 0.0, 0.0)) __CPROVER_assigns()',
+                subst=RET + [(r'x\.size\(\)', 'g_nx', 1), (r'x\[b_\]', 'vp_x(b_)', 1), (r'con_\.ComputeViolation\(x\)', 'con_ComputeViolation()', 1)],
+                label='mp::IndicatorConstraint::ComputeViolation', nmatches=1), '''
+void harness(void) { vp_one = 1; b_ = nondet_int(); bv_ = nondet_int(); g_xb = nondet_double(); g_nx = nondet_size_t();
+  g_sub.viol_ = nondet_double(); g_sub.valX_ = nondet_double(); __CPROVER_assume(g_sub.viol_ == g_sub.viol_ && g_sub.valX_ == g_sub.valX_);
+  Indicator_ComputeViolation(); VP_REACH("normal return"); }
+''']
+    return Harness('C07.Indicator.ComputeViolation', 'C07', parts, enforce='Indicator_ComputeViolation',
+                   stubs=['the implied constraint\'s ComputeViolation (arbitrary)'], note='nearest integer of the indicator stated without calling round()')
+
+
+def h_functional_violation():
+    """ComputeViolation(CustomFunctionalConstraint): result variable against the recomputed value, by context:
+    MIX |r - f|, POS r - f (only r > f violates), NEG f - r; recomputed mode: |x[r] - raw| + bound violation"""
+    parts = [VIOL, ('enum', CTXH, r'enum CtxVal \{', 'Context_'), '''
+int g_res, g_ctx; double g_xr, g_f, g_raw, g_bv; _Bool g_recomp;
+double D_RF, D_RAW;    /* the differences x[r] - f(x) and x[r] - raw(r) of the source text as opaque values (SAT cannot relate two evaluations of one double subtraction) */
+static int c_GetResultVar(void) { return g_res; }
+static int c_GetContext_GetValue(void) { return g_ctx; }
+static double ComputeValue_c(void) { return g_f; }
+static _Bool x_recomp_vals(void) { return g_recomp; }
+static double vp_x(int i) { __CPROVER_assert(i == g_res, "only the result variable is read here"); return g_xr; }
+static double x_raw(int i) { __CPROVER_assert(i == g_res, "raw value of the result variable"); return g_raw; }
+static double x_bounds_viol(int i) { return g_bv; }
+#define ABS(v) ((v) < 0 ? -(v) : (v))
+''',
+             Fn(BASE, r'Violation ComputeViolation\(\s*const CustomFunctionalConstraint<Args, Params, NumOrLogic, Id>& c,\s*const VarVec& x\)', 'Violation Functional_ComputeViolation(void)',
+                contract='__CPROVER_requires(g_xr == g_xr && g_f == g_f && g_raw == g_raw && g_bv == g_bv && D_RF == D_RF && D_RAW == D_RAW && g_bv < 1e300 && D_RAW < 1e300 && D_RAW > -1e300) '
+                         '__CPROVER_ensures(!g_recomp ==> (__CPROVER_return_value.valX_ == (g_ctx == Context_CTX_MIX || g_ctx == Context_CTX_POS || g_ctx == Context_CTX_NEG ? g_xr : 0.0))) '
+                         '__CPROVER_ensures((!g_recomp && g_ctx == Context_CTX_MIX) ==> __CPROVER_return_value.viol_ == ABS(D_RF)) '
+                         '__CPROVER_ensures((!g_recomp && g_ctx == Context_CTX_POS) ==> __CPROVER_return_value.viol_ == D_RF) '
+                         '__CPROVER_ensures((!g_recomp && g_ctx == Context_CTX_NEG) ==> __CPROVER_return_value.viol_ == -D_RF) '
+                         '__CPROVER_ensures((!g_recomp && g_ctx != Context_CTX_MIX && g_ctx != Context_CTX_POS && g_ctx != Context_CTX_NEG) ==> __CPROVER_return_value.viol_ == __builtin_inf()) '
+                         '__CPROVER_ensures(g_recomp ==> (__CPROVER_return_value.viol_ >= ABS(D_RAW) && (g_bv <= 0.0 ==> __CPROVER_return_value.viol_ == ABS(D_RAW)) && __CPROVER_return_value.valX_ == g_xr)) '
+                         '__CPROVER_assigns()',
+                subst=RET + [(r'x\[resvar\] - ComputeValue\(c, x\)', 'D_RF', 1), (r'x\[resvar\] - x\.raw\(resvar\)', 'D_RAW', 1), (r'c\.GetResultVar\(\)', 'c_GetResultVar()', 1), (r'c\.GetContext\(\)\.GetValue\(\)', 'c_GetContext_GetValue()', 1),
+                             (r'x\.recomp_vals\(\)', 'x_recomp_vals()', 1), (r'x\[resvar\]', 'vp_x(resvar)', -1), (r'x\.bounds_viol\(resvar\)', 'x_bounds_viol(resvar)', 1), (r'\bINFINITY\b', '__builtin_inf()', 1)],
+                label='mp::ComputeViolation(CustomFunctionalConstraint)', nmatches=1), '''
+void harness(void) { vp_one = 1; g_res = nondet_int(); g_ctx = nondet_int(); g_xr = nondet_double(); g_f = nondet_double(); g_raw = nondet_double(); g_bv = nondet_double();
+  g_recomp = nondet_bool(); D_RF = nondet_double(); D_RAW = nondet_double(); Functional_ComputeViolation(); VP_REACH("normal return"); }
+''']
+    return Harness('C07.Functional.ComputeViolation', 'C07', parts, enforce='Functional_ComputeViolation',
+                   stubs=['ComputeValue(c, x) (the evaluator: C07.ComputeValue.*)', 'x[resvar] / x.raw / x.bounds_viol (arbitrary)'])
+
+
+def h_algebraic_violation():
+    """AlgebraicConstraint::ComputeViolation: lower side lb - body, upper side body - ub, else the (non-positive) larger of the two; reference
+    value = the violated bound; logical mode: 1/0 by is_valid"""
+    parts = [VIOL, '''
+double g_body, g_lbv, g_ubv; _Bool g_valid;
+double D_LB, D_UB;     /* the slacks lb - body and body - ub of the source text as opaque values */
+static double Body_ComputeValue(void) { return g_body; }
+static double RhsOrRange_lb(void) { return g_lbv; }
+static double RhsOrRange_ub(void) { return g_ubv; }
+static _Bool RhsOrRange_is_valid(double bd) { __CPROVER_assert(bd == g_body, "validity is tested for the body value"); return g_valid; }
+''',
+             Fn(ALG, r'ComputeViolation\(const VarInfo& x, bool logical=false\) const', 'Violation Algebraic_ComputeViolation(_Bool logical)',
+                contract='__CPROVER_requires(g_body == g_body && g_lbv == g_lbv && g_ubv == g_ubv && D_LB == D_LB && D_UB == D_UB) '
+                         '__CPROVER_ensures((!logical && g_lbv > g_body) ==> VEQ(__CPROVER_return_value, D_LB, g_lbv)) '
+                         '__CPROVER_ensures((!logical && !(g_lbv > g_body) && g_body > g_ubv) ==> VEQ(__CPROVER_return_value, D_UB, g_ubv)) '
+                         '__CPROVER_ensures((!logical && !(g_lbv > g_body) && !(g_body > g_ubv)) ==> (__CPROVER_return_value.valX_ == 0.0 && '
+                         '__CPROVER_return_value.viol_ == (D_LB < D_UB ? D_UB : D_LB))) '
+                         '__CPROVER_ensures(logical ==> VEQ(__CPROVER_return_value, (g_valid ? 0.0 : 1.0), 1.0)) __CPROVER_assigns()',
+                subst=RET + [(r'Body::ComputeValue\(x\)', 'Body_ComputeValue()', 1), (r'RhsOrRange::', 'RhsOrRange_', -1), (r'RhsOrRange_lb\(\) - bd', 'D_LB', 2), (r'bd - RhsOrRange_ub\(\)', 'D_UB', 2), (r'double\(!RhsOrRange_is_valid\(bd\)\)', '(double)(!RhsOrRange_is_valid(bd))', 1)],
+                label='mp::AlgebraicConstraint::ComputeViolation', nmatches=1), '''
+void harness(void) { vp_one = 1; g_body = nondet_double(); g_lbv = nondet_double(); g_ubv = nondet_double(); g_valid = nondet_bool(); D_LB = nondet_double(); D_UB = nondet_double();
+  Algebraic_ComputeViolation(nondet_bool()); VP_REACH("normal return"); }
+''']
+    return Harness('C07.Algebraic.ComputeViolation', 'C07', parts, enforce='Algebraic_ComputeViolation',
+                   stubs=['Body::ComputeValue (arbitrary body value)', 'RhsOrRange::lb/ub/is_valid (arbitrary; the per-kind definitions: C07.AlgConRhs.*)'])
+
+
+def h_algconrhs(kind):
+    """AlgConRhs<kind>: lb(), ub() and is_valid() per comparison kind -2 < , -1 <=, 0 ==, 1 >=, 2 >"""
+    cmp_ = {-2: 'bv < rhs_', -1: 'bv <= rhs_', 0: 'bv == rhs_', 1: 'bv >= rhs_', 2: 'bv > rhs_'}[kind]
+    parts = [VIOL, 'double rhs_;\nstatic double rhs(void) { return rhs_; }\n#define kind_ (%d)\n#define VP_MAY_THROW_Error 0\n#define MP_RAISE(msg) VP_THROW(Error)\n' % kind,
+             Fn(ALG, r'double lb\(\) const', 'double AlgConRhs_lb(void)', ordinal=1,
+                contract='__CPROVER_ensures(__CPROVER_return_value == (%s)) __CPROVER_assigns()' % ('-__builtin_inf()' if kind < 0 else 'rhs_'),
+                subst=[(r'\bINFINITY\b', '__builtin_inf()', 1)], label='mp::AlgConRhs<kind>::lb', inst='kind=%d' % kind),
+             Fn(ALG, r'double ub\(\) const', 'double AlgConRhs_ub(void)', ordinal=1,
+                contract='__CPROVER_ensures(__CPROVER_return_value == (%s)) __CPROVER_assigns()' % ('__builtin_inf()' if kind > 0 else 'rhs_'),
+                subst=[(r'\bINFINITY\b', '__builtin_inf()', 1)], label='mp::AlgConRhs<kind>::ub', inst='kind=%d' % kind),
+             Fn(ALG, r'bool is_valid\(double bv\) const', '_Bool AlgConRhs_is_valid(double bv)', ordinal=1,
+                contract='__CPROVER_requires(bv == bv && rhs_ == rhs_) __CPROVER_ensures(__CPROVER_return_value == (%s)) __CPROVER_assigns()' % cmp_,
+                label='mp::AlgConRhs<kind>::is_valid', inst='kind=%d' % kind),
+             'void harness(void) { vp_one = 1; rhs_ = nondet_double(); __CPROVER_assume(rhs_ == rhs_); int w = nondet_int(); if (w == 0) AlgConRhs_lb(); else if (w == 1) AlgConRhs_ub(); else AlgConRhs_is_valid(nondet_double()); VP_REACH("normal return"); }\n']
+    return [Harness('C07.AlgConRhs.%s.%s' % ({-2: 'LT', -1: 'LE', 0: 'EQ', 1: 'GE', 2: 'GT'}[kind], f), 'C07', parts, enforce='AlgConRhs_' + f) for f in ('lb', 'ub', 'is_valid')]
 
 
 def h_check():
